@@ -5,11 +5,12 @@
 (* Returned points are projected to units of 10^-6.                                             *)
 EXTENDS Lin, TLC, Json, IOUtils
 Batch == JsonDeserialize(IOEnv.TRACE_FILE)
-VARIABLES tid, l, ok, why, orc
-vars == <<tid, l, ok, why, orc>>
+VARIABLES tid, l, ok, why, orc, open, inc, sg, div
+vars == <<tid, l, ok, why, orc, open, inc, sg, div>>
 T == Batch[tid]
 S6 == 1000000
 Abs(x) == IF x < 0 THEN -x ELSE x
+NoInc == 2000000000
 SumSeq(f(_), k) == LET RECURSIVE G(_)
                        G(i) == IF i > k THEN 0 ELSE f(i) + G(i + 1)
                    IN G(1)
@@ -39,8 +40,13 @@ Complete(t, x, sgn) ==
              ELSE <<cc * y[1] + base * y[2], y[2]>>
 Best(t, sgn) == LET vals == {Complete(t, x, sgn) : x \in IntPoints(t)} \ {<<0, 0>>}
                 IN IF vals = {} THEN <<0, 0>> ELSE CHOOSE v \in vals : \A w \in vals : ~Less(w, v)
+\* every integer part with a feasible completion, with the best completion value in units of 10^-6 for either sense
+\* (vmin = min c.x, vmax = -(max c.x): both "smaller is better")
+FeasPts(t) == {r \in {[p |-> x, a |-> Complete(t, x, 1), z |-> Complete(t, x, -1)] : x \in IntPoints(t)} : r.a # <<0, 0>>}
 Init == /\ tid \in 1..Len(Batch) /\ l = 1 /\ ok = TRUE /\ why = ""
-        /\ orc = [min |-> Best(tid, 1), max |-> Best(tid, -1)]
+        /\ orc = [min |-> Best(tid, 1), max |-> Best(tid, -1),
+                  F |-> {[p |-> r.p, vmin |-> Dec6(r.a[1], r.a[2]), vmax |-> Dec6(r.z[1], r.z[2])] : r \in FeasPts(tid)}]
+        /\ open = {} /\ inc = NoInc /\ sg = 1 /\ div = {}
 I == {T.ints[i] : i \in 1..Len(T.ints)}
 PointBad(x) ==
   IF Len(x) # T.n THEN "Solution.wrong_dimension"
@@ -69,8 +75,74 @@ Check(e) ==
      ELSE IF e.status = "OPTIMAL" /\ Abs(e.obj6 - opt6) > 4 + Abs(opt6) \div 500000 THEN "Optimal.but_better_point_exists"
      ELSE IF (IF e.minimize THEN e.obj6 < opt6 - 4 ELSE e.obj6 > opt6 + 4) THEN "Objective.better_than_the_optimum"
      ELSE ""
+\* ---- step level: the branch-and-bound events of one call, read as actions of Bnb.tla on the concrete instance.
+\* State: open = set of open boxes <<lower, upper>> (integer bounds, 10^6 = none), inc = sense-normalised objective of the
+\* incumbent in units of 10^-6 (NoInc = none).  All guards here are diagnostic (`div`): C04 speaks about what is returned.
+Val(r) == IF sg = 1 THEN r.vmin ELSE r.vmax
+Tol(v) == 4 + Abs(v) \div 500000
+InBox(p, bx) == \A j \in 1..T.n : bx[1][j] <= p[j] /\ p[j] <= bx[2][j]
+\* Bnb!Cover: every feasible integer part strictly better than the incumbent lies in an open box
+CoverOK(op, ic) == \A r \in orc.F : (ic # NoInc /\ ic <= Val(r) + Tol(Val(r))) \/ \E bx \in op : InBox(r.p, bx)
+BoxHasBetter(bx, ic) == \E r \in orc.F : InBox(r.p, bx) /\ (ic = NoInc \/ Val(r) + Tol(Val(r)) < ic)
+Cdotx(x) == SumSeq(LAMBDA j : T.c[j] * x[j], T.n)
+IncGuards(e) ==       \* a point offered as incumbent: feasible, and its objective is c.x
+  (IF PointBad(e.x) # "" THEN {"Incumbent(" \o e.src \o ")." \o PointBad(e.x)} ELSE {})
+  \cup (IF Abs(e.obj6 - Cdotx(e.x)) > SumSeq(LAMBDA j : Abs(T.c[j]), T.n) * 2 + 2 THEN {"Incumbent(" \o e.src \o ").objective_is_not_c_dot_x"} ELSE {})
+Bnb(e) ==
+  CASE e.e = "start" ->
+         /\ open' = {} /\ inc' = NoInc /\ sg' = (IF e.minimize THEN 1 ELSE -1) /\ UNCHANGED div
+    [] e.e = "milp_incumbent" ->
+         /\ inc' = (IF sg * e.obj6 < inc THEN sg * e.obj6 ELSE inc)
+         /\ div' = div \cup IncGuards(e)
+         /\ UNCHANGED <<open, sg>>
+    [] e.e = "milp_root_integral" ->      \* the relaxation of the whole problem is integral: NodeIntegral on the root box, nothing stays open
+         /\ open' = {} /\ inc' = sg * e.obj6 /\ UNCHANGED sg
+         /\ div' = div \cup IncGuards(e) \cup (IF \E r \in orc.F : Val(r) + Tol(Val(r)) < sg * e.obj6 THEN {"RootIntegral.not_optimal"} ELSE {})
+    [] e.e = "milp_tighten_binary" -> UNCHANGED <<open, inc, sg, div>>     \* its effect is the root box of the next event
+    [] e.e = "milp_open_root" ->
+         /\ open' = {<<e.lower, e.upper>>}
+         /\ div' = div \cup (IF CoverOK({<<e.lower, e.upper>>}, inc) THEN {} ELSE {"Root.box_excludes_feasible_point"})
+         /\ UNCHANGED <<inc, sg>>
+    [] e.e = "milp_node" ->
+         LET bx == <<e.lower, e.upper>>
+             rest == open \ {bx}
+             isopen == IF bx \in open THEN {} ELSE {"Node.box_not_open"}
+         IN (CASE e.act \in {"prune_bound", "prune_lp"} ->
+                  /\ open' = rest /\ UNCHANGED <<inc, sg>>
+                  /\ div' = div \cup isopen \cup (IF inc = NoInc THEN {"Prune.without_incumbent"} ELSE {})
+                                 \cup (IF BoxHasBetter(bx, inc) THEN {"Prune.box_contains_better_point"} ELSE {})
+              [] e.act = "lp_infeasible" ->
+                  /\ open' = rest /\ UNCHANGED <<inc, sg>>
+                  /\ div' = div \cup isopen \cup (IF \E r \in orc.F : InBox(r.p, bx) THEN {"NodeInfeasible.box_has_feasible_point"} ELSE {})
+              [] e.act = "integral" ->
+                  /\ open' = rest /\ UNCHANGED sg
+                  /\ inc' = (IF sg * e.obj6 < inc THEN sg * e.obj6 ELSE inc)
+                  /\ div' = div \cup isopen \cup IncGuards([x |-> e.x, obj6 |-> e.obj6, src |-> "node"])
+                                 \cup (IF BoxHasBetter(bx, sg * e.obj6) THEN {"NodeIntegral.not_best_of_its_box"} ELSE {})
+              [] e.act = "branch" ->
+                  LET j == e.var
+                      v == e.left_upper[j]
+                      left == <<e.lower, e.left_upper>>
+                      right == <<e.right_lower, e.upper>>
+                      shape == /\ j \in I
+                               /\ \A k \in 1..T.n : k # j => e.left_upper[k] = e.upper[k] /\ e.right_lower[k] = e.lower[k]
+                               /\ e.right_lower[j] = v + 1 /\ e.lower[j] <= v /\ v + 1 <= e.upper[j]
+                               /\ v * S6 <= e.val6 /\ e.val6 <= (v + 1) * S6
+                  IN /\ open' = rest \cup {left, right} /\ UNCHANGED <<inc, sg>>
+                     /\ div' = div \cup isopen \cup (IF shape THEN {} ELSE {"Branch.children_do_not_partition_parent"})
+              [] OTHER ->      \* node LP did not finish (max_iter): the node is dropped - outside the property's domain, flagged
+                  /\ open' = rest /\ UNCHANGED <<inc, sg>> /\ div' = div \cup {"Node.dropped_without_verdict(" \o e.act \o ")"})
+    [] OTHER -> UNCHANGED <<open, inc, sg, div>>
+IsRet(e) == e.e \in {"ret", "raise", "noreturn"}
 Step == /\ ok /\ l <= Len(T.events) /\ l' = l + 1 /\ UNCHANGED <<tid, orc>>
-        /\ LET w == Check(T.events[l]) IN IF w = "" THEN UNCHANGED <<ok, why>> ELSE ok' = FALSE /\ why' = w
+        /\ LET e == T.events[l] IN
+           IF IsRet(e)
+           THEN /\ (LET w == Check(e) IN IF w = "" THEN UNCHANGED <<ok, why>> ELSE ok' = FALSE /\ why' = w)
+                /\ UNCHANGED <<open, inc, sg>>
+                \* Bnb!Finish: INFEASIBLE only without incumbent; OPTIMAL at loop exit only under Cover with no open box
+                /\ div' = div \cup (IF e.e = "ret" /\ e.status = "INFEASIBLE" /\ inc # NoInc THEN {"Return.infeasible_with_incumbent"} ELSE {})
+                              \cup (IF e.e = "ret" /\ e.status = "OPTIMAL" /\ open = {} /\ ~CoverOK(open, inc) THEN {"Return.optimal_without_cover"} ELSE {})
+           ELSE Bnb(e) /\ UNCHANGED <<ok, why>>
 Spec == Init /\ [][Step]_vars
-Report == (l = Len(T.events) + 1 \/ ~ok) => PrintT(ToJson([tid |-> tid, ok |-> ok, why |-> why, l |-> l, feas |-> orc.min # <<0, 0>>, div |-> {}]))
+Report == (l = Len(T.events) + 1 \/ ~ok) => PrintT(ToJson([tid |-> tid, ok |-> ok, why |-> why, l |-> l, feas |-> orc.min # <<0, 0>>, div |-> div]))
 ==========================================================================
